@@ -13,7 +13,28 @@ def bad(msg, obs=None, exp=None, **kw):
     return d
 
 
+def chk_elementwise(inp):
+    """every closed form is a function of the separation alone, applied element by element: the value at one entry of an array of separations
+    is the value of the scalar call, whatever the shape (square, non-symmetric, 1-d, 3-d) and memory layout of the array"""
+    rng = numpy.random.default_rng(12)
+    from aotools.functions import karhunenLoeve as KLm
+    fns = (("phase_covariance", lambda r: aotools.phase_covariance(r, 0.15, 25.)), ("structure_function_vk", lambda r: aotools.structure_function_vk(r, 0.15, 25.)),
+           ("structure_function_kolmogorov", lambda r: aotools.structure_function_kolmogorov(r, 0.15)), ("stf_vonKarman", lambda r: KLm.stf_vonKarman(r, 3.)), ("stf_kolmogorov", lambda r: KLm.stf_kolmogorov(r)))
+    arrays = [numpy.array([[1., 2.], [30., 4.]]), rng.random((5, 5)) * 40, rng.random((3, 7)) * 10, rng.random(6) * 5, rng.random((2, 3, 3)), numpy.asfortranarray(rng.random((4, 4)) * 3), (rng.random((6, 6)) * 9)[::2, ::3]]
+    for name, f in fns:
+        for r in arrays:
+            got = numpy.asarray(f(r.copy()))
+            want = numpy.array([float(f(float(x))) for x in r.ravel()]).reshape(r.shape)
+            if got.shape != r.shape or not numpy.allclose(got, want, rtol=1e-6, atol=1e-9 * abs(want).max()):
+                k = numpy.unravel_index(numpy.argmax(abs(got - want)), r.shape) if got.shape == r.shape else None
+                return bad("%s of an array of separations (shape %s) is not the scalar function applied entry by entry (entry %s: separation %s)" % (name, list(r.shape), k, None if k is None else float(r[k])),
+                           None if k is None else float(got[k]), None if k is None else float(want[k]))
+
+
 def chk_consistency(inp):
+    r_ = chk_elementwise(inp)
+    if r_:
+        return r_
     for (r0, L0) in ((0.15, 25.), (1.0, 3.0), (0.4, 100.)):
         r = L0 * numpy.logspace(-4, numpy.log10(30), 60)
         D = aotools.structure_function_vk(r.copy(), r0, L0)
